@@ -288,6 +288,17 @@ func propC26(rt *rapid.T) {
 	c := ev.For("C26")
 	excludeShift := ev.Excluded(c26FindingShift)
 	base := genHashData(rt, "base")
+	// 1 case in 4: a large payload (16-48 KiB), as real eth_call / batch bodies are
+	if rapid.IntRange(0, 3).Draw(rt, "largePayload") == 0 {
+		unit := append([]byte(nil), base.Data...)
+		if len(unit) == 0 {
+			unit = []byte{0x61}
+		}
+		want := rapid.SampledFrom([]int{16 << 10, 16<<10 + 1, 32 << 10, 48 << 10}).Draw(rt, "payloadSize")
+		for len(base.Data) < want {
+			base.Data = append(base.Data, unit...)
+		}
+	}
 	family := []c26Variant{{base, "base", false}}
 	classes := []string{}
 	// recorded when the property function returns OR stops at a violation (so that a violating run
@@ -459,6 +470,17 @@ func propC26(rt *rapid.T) {
 		if !bytes.Equal(session.ContentHash, []byte(contentHash(base))) {
 			rt.Fatalf("%s", ev.Violation("C26", "the content hash put into the session (%x) is not the content hash of its request (%x): %s",
 				session.ContentHash, contentHash(base), describe(base)))
+		}
+		// every variant's own session, built one after the other by the same process (the consumer
+		// builds sessions for many requests, also for the same salt / GUID on a retry): each must carry
+		// the content hash of the request it was built for, whatever was built before
+		for _, v := range family[1:] {
+			vs := lavaprotocol.ConstructRelaySession("lava", cloneData(v.r), "LAV1", "lava@provider", scs, 100, nil)
+			c.Clause("session-authorizes-its-own-request")
+			if vs == nil || !bytes.Equal(vs.ContentHash, sigs.HashMsg(v.r.GetContentHashData())) {
+				rt.Fatalf("%s", ev.Violation("C26", "the content hash put into the session of request B (%s), built after the session of request A, is not the content hash of B.\nA: %s\nB: %s",
+					v.how, describe(base), describe(v.r)))
+			}
 		}
 		baseKey, baseFlat := canonKey(base), flatLayout(base)
 		for _, v := range family[1:] {
